@@ -127,7 +127,12 @@ func vrtTarget(h *Header, id int, now Timestamp, p Point) int {
 // stored in its target archive, the last supplied wins within a slot, points too old for
 // every candidate change nothing and archives finer than every target are untouched.
 func VerifC03_Batch() {
-	h := vrtChooseHeaderSmall(Sum, 0.5)
+	var h *Header
+	if vrt.Tier() == 1 {
+		h = vrtChooseHeaderSmall(Sum, 0.5)
+	} else {
+		h = vrtChooseHeaderFrom([]string{"1s:2s", "5s:15s", "1s:2s,2s:6s"}, Sum, 0.5)
+	}
 	now := vrtInstant(h, "now")
 	vrtAssumeClock(h, now)
 	img, pre := vrtInvImage(h, "s", now)
@@ -162,19 +167,10 @@ func VerifC03_Batch() {
 		}
 		a := h.archiveInfoList[tg[i]]
 		at := refAlign(p.Time, a.secondsPerPoint)
-		b := pre.t[tg[i]][0]
-		if b == 0 {
-			// first write to the archive: the base is the earliest aligned time routed to it
-			b = at
-			for q := range in {
-				if tg[q] == tg[i] {
-					aq := refAlign(in[q].Time, a.secondsPerPoint)
-					if aq < b {
-						b = aq
-					}
-				}
-			}
-		}
+		// slot positions are relative to the archive's base as stored now (a first write - direct
+		// or by propagation from a finer archive - sets it; later laps never change an index)
+		b := post.t[tg[i]][0]
+		vrt.Assert(b != 0, "C03.batch target archive has a base interval after the write")
 		j := refIndex(b, at, a.secondsPerPoint, a.numberOfPoints)
 		replaced := false
 		want := p.Value
